@@ -1,6 +1,8 @@
 import HabuVerif.Proofs.Confluence3
 import HabuVerif.Props.C01
 import HabuVerif.Proofs.Frame
+import HabuVerif.Props.C03
+import HabuVerif.Proofs.DslCatWF
 /-!
 # C05 — The result depends only on year, requested forms and input values
 -/
@@ -167,6 +169,34 @@ theorem line_outcome_depends_only_on_read_names (y : YearDecl) (n : String)
     run vs is fs ((mkCat y).sem n) = run vs' is' fs ((mkCat y).sem n) :=
   cat_frame y n vs vs' is is' fs hv hi
 
+/-- **Two returns that agree on what a line can read agree on the line.**  For the regenerated catalogue of any
+year and ANY name `n`: two states the solver returns (different input files, prompts, requests, schedules) with the
+same loaded forms, whose stored values and input answers coincide on every name the syntactic read sets of the
+line behind `n` describe, store the same value for `n` (when both store one).  The result depends on the inputs
+only THROUGH what the lines read. -/
+theorem returns_agree_on_line (y : YearDecl) (n : String)
+    {σ σ' : Sched String String} (hσ : SchedOK σ) (hσ' : SchedOK σ')
+    {P P' : Option (Nat → String → List String → Option String)}
+    {inp inp' : List (String × String)} {forms forms' extra extra' : List String}
+    {fuel qfuel fuel' qfuel' : Nat} {s s' : St String String String Val String}
+    (h : solve (mkCat y) σ P inp forms extra fuel qfuel = .ok (some s))
+    (h' : solve (mkCat y) σ' P' inp' forms' extra' fuel' qfuel' = .ok (some s'))
+    (hff : s.ff = s'.ff)
+    (hv : ∀ m, (∃ f k c inst d, splitName n = some (f, k) ∧ y.resolveForm f = some (c, inst) ∧ d ∈ c.lines ∧
+        d.name = k ∧ ∃ p ∈ refsV d, KeyPat.Names c.name inst p m) → s.vf m = s'.vf m)
+    (hi : ∀ x, (∃ f k c inst d, splitName n = some (f, k) ∧ y.resolveForm f = some (c, inst) ∧ d ∈ c.lines ∧
+        d.name = k ∧ ∃ p ∈ refsI d, KeyPat.Names c.name inst p x) → s.inf (mkCat y) x = s'.inf (mkCat y) x)
+    (x x' : Val) (hx : s.vf n = some x) (hx' : s'.vf n = some x') : x = x' := by
+  have hC : CatWF (mkCat y) := Dsl.mkCat_wf y
+  have f := C03.solution_fixed_point hC hσ h n x hx
+  have f' := C03.solution_fixed_point hC hσ' h' n x' hx'
+  have e := cat_frame y n s.vf s'.vf (s.inf (mkCat y)) (s'.inf (mkCat y)) s.ff hv hi
+  rw [hff] at e f
+  rw [e, f'] at f
+  injection f with f
+  exact f.symm
+
 end HabuVerif.C05
 
 #print axioms HabuVerif.C05.line_outcome_depends_only_on_read_names
+#print axioms HabuVerif.C05.returns_agree_on_line
